@@ -231,6 +231,9 @@ func genOpenItem(c *vcore.Ctx, i int) container.OpenCmd {
 		o.Path = dir // a directory
 	case 3:
 		o.Path = filepath.Join(dir, strings.Repeat("n", 300)) // ENAMETOOLONG
+	default:
+		// asking for the parent directories to be made changes nothing about what may be at the path itself
+		o.MkdirAll = src.Bool(1, 3, "mkdirall_plain")
 	}
 	return o
 }
